@@ -35,9 +35,13 @@ type ServerCfg struct {
 	HasParams   bool              `json:"hasparams,omitempty"` // configure GlobalParameters even when empty
 	Version     string            `json:"version,omitempty"`
 	TLS         string            `json:"tls,omitempty"` // "" | empty | certs
-	MW          []MWSpec          `json:"mw,omitempty"`
-	Term        string            `json:"term,omitempty"` // "" | ok | fail
-	NilParse    bool              `json:"nilparse,omitempty"`
+	// TLSVia: how the configuration reaches the server: "" = the TLSConfig option,
+	// "field" = the exported Server.TLSConfig field assigned after NewServer,
+	// "late-cert" = the option with a config whose certificate is added afterwards
+	TLSVia   string   `json:"tls_via,omitempty"`
+	MW       []MWSpec `json:"mw,omitempty"`
+	Term     string   `json:"term,omitempty"` // "" | ok | fail
+	NilParse bool     `json:"nilparse,omitempty"`
 }
 
 // AuthEntry scripts the password validator: outcome for one credential triple.
@@ -110,6 +114,9 @@ type TLSClient struct {
 	// StepBytes is filled in by the check from the plaintext reference run: how
 	// many plaintext bytes the server sends in reply to each step.
 	StepBytes []int `json:"stepbytes,omitempty"`
+	// StayOpen: the client also reads the reply to its last step and then keeps
+	// the connection open without sending anything more (an idle session)
+	StayOpen bool `json:"stayopen,omitempty"`
 }
 
 // SchedCase is the E2 part of a case.
